@@ -46,6 +46,7 @@ def main():
     ap.add_argument('--only')
     ap.add_argument('--all-props', action='store_true', help='also run every other property check (false-alarm/attribution view)')
     ap.add_argument('--runs', type=int)
+    ap.add_argument('--no-corpus', action='store_true', help='do not replay the regression corpus: shows what the seeded search alone finds')
     args = ap.parse_args()
     from_props = ['C01', 'C03', 'C04', 'C05', 'C06', 'C07', 'C08', 'C09', 'C11', 'C12', 'C13', 'C15', 'C16', 'C17']
     rows = []
@@ -72,6 +73,8 @@ def main():
                 cmd = [PY, '-B', '-m', 'sim.check', '--property', prop, '--tier', args.tier, '--no-evidence']
                 if args.runs:
                     cmd += ['--runs', str(args.runs)]
+                if args.no_corpus:
+                    cmd += ['--no-corpus']
                 env = dict(os.environ, VERIF_REPO=wt)
                 rc, out = run(cmd, cwd=ROOT, env=env)
                 if rc == 1 and 'VIOLATION property=%s' % prop in out:
